@@ -147,7 +147,8 @@ def run_history(args):
             model = models[a["model"] if a["valid"] else "bad"]
             mlist = model if isinstance(model, list) else [model]
             hs = a["seed"] if a["seed"] != "r" else str(rnd.randint(2, 4000000))
-            before = other_digest(plugin, out, test)
+            # "nothing written" only matters for runs that must be refused
+            before = other_digest(plugin, out, test) if not a["valid"] else ""
             env = dict(os.environ, PYTHONPATH=common.REPO, PYTHONHASHSEED=hs)
             p = subprocess.run([common.PY, "-m", "generator", "--model"] + mlist + ["--plugin", plugin, "--output-dir", out, "--test-dir", test],
                                cwd=common.REPO, env=env, stdout=subprocess.DEVNULL, stderr=subprocess.DEVNULL, timeout=1800)
@@ -156,7 +157,8 @@ def run_history(args):
                           if os.path.exists(pth) and open(pth).read() == content]
             events.append({"e": "Run", "plugin": plugin, "model": a["model"], "seed": a["seed"], "valid": a["valid"],
                            "exit": p.returncode if p.returncode >= 0 else 255, "digest": digest, "n": n,
-                           "stale_left": stale_left, "uuid": uuid, "changed": other_digest(plugin, out, test) != before})
+                           "stale_left": stale_left, "uuid": uuid,
+                           "changed": (other_digest(plugin, out, test) != before) if not a["valid"] else False})
     finally:
         shutil.rmtree(base, ignore_errors=True)
     return events
@@ -260,7 +262,8 @@ def check_c16(tier):
             models = {"A": paths["sA" if small_models else "A"], "B": paths["sB" if small_models else "B"], "bad": paths["bad"],
                       "C": [paths["sA" if small_models else "A"], paths["ext"]]}
             jobs.append((p, h["hist"], models, work, len(jobs), common.seed()))
-        with cf.ThreadPoolExecutor(max_workers=common.NCPU) as ex:
+        # processes, not threads: hashing tens of thousands of files is Python work (GIL)
+        with cf.ProcessPoolExecutor(max_workers=common.NCPU) as ex:
             runs = list(ex.map(run_history, jobs))
         # the function gen is per (plugin, model file): histories of the testdata plugin on the small and the full model differ
         tp = os.path.join(work, "trace.json")
